@@ -9,6 +9,7 @@ import Pyunicorn.Lemmas.RelabelRec4
 import Pyunicorn.Lemmas.RelabelAssort
 import Pyunicorn.Lemmas.RelabelR5
 import Pyunicorn.Lemmas.RelabelRec5
+import Pyunicorn.Lemmas.RelabelW5
 import Mathlib.Algebra.BigOperators.Group.List.Basic
 import Mathlib.Data.List.Nodup
 /-!
@@ -417,6 +418,27 @@ theorem net_cliquishness_relabel (h : IsPerm n idx) (order : Nat) (a : Adj) :
       = (cliquishness order n a (outdeg n a)).getD (idx v) 0 := by
   refine ⟨cliquishness_relabel h order a, fun v hv => ?_⟩
   rw [cliquishness_relabel h order a, nodeList_getD n idx 0 _ v hv]
+
+/-- **link-weighted clustering** (round 5; the `key=` code path of `_motif_clustering_helper` and the
+static `weighted_local_clustering` were oracle / catalogue only): with the link attribute renumbered
+with the nodes (`M[idx][:, idx]`, `M` = the matrix of cubic roots), the four `key=` motif clustering
+coefficients — numerator `t_func(M, Mᵀ).diagonal()` (sparse matrix products), denominator from the
+degrees of the *adjacency* matrix, `0` where it vanishes — and `weighted_local_clustering`
+(`(wA³)_ii / (wA · max(wA) · wA)_ii`, `none` = `nan`) at new node `i` are the old values at `idx i`.
+`wA.max()` is modelled as the code of C03's model computes it, a nested running maximum started at
+entry `[0, 0]` — a *different* entry of the old matrix after renumbering; it is the same number
+because it is an upper bound that is attained (`wMax_spec`). -/
+theorem net_weighted_clustering_relabel (h : IsPerm n idx) (a : Adj) (m w : RMat) (i : Nat)
+    (hi : i < n) :
+    cycleCW n (mat a idx) (mat m idx) i = cycleCW n a m (idx i) ∧
+    midCW n (mat a idx) (mat m idx) i = midCW n a m (idx i) ∧
+    inCW n (mat a idx) (mat m idx) i = inCW n a m (idx i) ∧
+    outCW n (mat a idx) (mat m idx) i = outCW n a m (idx i) ∧
+    wMax n (mat w idx) = wMax n w ∧
+    weightedLocalClustering n (mat w idx) i = weightedLocalClustering n w (idx i) :=
+  have mo := motifW_relabel h a m i
+  ⟨mo.1, mo.2.1, mo.2.2.1, mo.2.2.2, wMax_relabel h w (by omega),
+    weightedLocalClustering_relabel h w i hi⟩
 
 /-! ## C11 model: cross / internal measures, node lists renumbered with the network -/
 open Pyunicorn.Cross
@@ -865,6 +887,14 @@ example : localVulnerability 5 (mat exAdj5 exPerm5) 2 = localVulnerability 5 exA
 example : cliquishness 4 5 exAdj5 (outdeg 5 exAdj5) = [1/4, 1, 1, 1, 0] ∧
     cliquishness 4 5 (mat exAdj5 exPerm5) (outdeg 5 (mat exAdj5 exPerm5)) = [0, 1, 1/4, 1, 1] := by
   decide +kernel
+/-- triangle 0,1,2 with weights 1, 2, 3 (symmetric) and the pendant link 0 — 4 of weight 5 -/
+def exW5 : Net.RMat := fun i j =>
+  if (i, j) ∈ [(0, 1), (1, 0)] then 1 else if (i, j) ∈ [(1, 2), (2, 1)] then 2
+  else if (i, j) ∈ [(0, 2), (2, 0)] then 3 else if (i, j) ∈ [(0, 4), (4, 0)] then 5 else 0
+example : wMax 5 exW5 = 5 ∧ wMax 5 (mat exW5 exPerm5) = 5 ∧ exW5 0 0 = 0 ∧
+    weightedLocalClustering 5 exW5 1 = some (4 / 15) ∧
+    weightedLocalClustering 5 (mat exW5 exPerm5) 4 = some (4 / 15) ∧
+    weightedLocalClustering 5 exW5 3 = none := by decide +kernel
 example : nodes 4 exPerm [0, 3] = [1, 2] ∧ (nodes 4 exPerm [0, 3]).map exPerm = [0, 3] := by
   decide +kernel
 /-- links of the path 0 — 1 — 2 listed in two different orders / orientations -/
